@@ -328,6 +328,8 @@ def run(prop, tier, seed, replay):
         ("rebuild-to-unbinned", [create_old, build(1)], 1, build(0), 0),
         ("rebuild-from-unbinned", [create_old, build(0)], 0, build(1), 1),
         ("rebuild-forced", [create_old, build(1)], 1, build(1, True), 1),
+        # a FORCED rebuild for another binning (the cached marker is not consulted for the decision — it must be invalidated anyway)
+        ("rebuild-forced-other-binning", [create_old, build(1)], 1, build(2, True), 2),
     ]
     if tier == "thorough":
         cat_workloads += [
